@@ -54,6 +54,8 @@ class BuiltinMixin:
             return _f(args, kwargs, node)
 
         call._pyvc_builtin = True
+        call._pytype = {"str": str, "int": int, "bool": bool, "bytes": bytes, "float": float, "tuple": tuple, "list": list,
+                        "dict": dict, "set": set, "frozenset": frozenset}.get(name)
         return call
 
     # ---------------- functions ----------------
